@@ -160,6 +160,8 @@ def valid_history(rng, kind, ncalls=30, small=False, allow=("ratio", "ramp", "ch
                     p["in_extra"] = rng.choice([1, 2, 3, 4, 64, 1000])
                 if rng.random() < 0.2:
                     p["out_extra"] = rng.choice([1, 2, 3, 4, 64, 1000])
+                if rng.random() < 0.15:
+                    p["out_fill"] = "garbage"      # a reused output buffer that still holds old frames
             if mask == "vary":
                 p["mask"] = [rng.random() < 0.6 for _ in range(n["ch"])]
                 if not any(p["mask"]) and p.get("via") in ("alloc", "vec_alloc"):
